@@ -144,7 +144,12 @@ func effective(static, dep *schema.BodySchema) *schema.BodySchema {
 			m.Blocks[k] = v
 		}
 		if dep.Extensions != nil {
-			m.Extensions = dep.Extensions
+			ext := *dep.Extensions
+			// dynamic blocks are enabled for the merged body by either side
+			if static != nil && static.Extensions != nil && static.Extensions.DynamicBlocks {
+				ext.DynamicBlocks = true
+			}
+			m.Extensions = &ext
 		}
 	}
 	return m
